@@ -91,6 +91,34 @@ pub fn handle(op: &str, req: &Value) -> Option<Value> {
             }
             json!({"problems": bad, "violates": !bad.is_empty()})
         },
+        // U3: after a committed multi-row update / delete, every answer through the index on the changed column equals the scan's
+        "relational_index_follow" => {
+            let e = RelationalEngine::new();
+            let cols = vec![Column::new("name", ColumnType::String), Column::new("age", ColumnType::Int)];
+            if let Err(err) = e.create_table("people", Schema::new(cols)) { return Some(json!({"error": err.to_string()})); }
+            for (n, a) in [("a", 10), ("b", 20), ("c", 10), ("d", 40)] {
+                let _ = e.insert("people", HashMap::from([("name".to_string(), RV::String(n.to_string())), ("age".to_string(), RV::Int(a))]));
+            }
+            if req["hash_index"].as_bool().unwrap_or(true) { let _ = e.create_index("people", "age"); }
+            if req["btree_index"].as_bool().unwrap_or(false) { let _ = e.create_btree_index("people", "age"); }
+            let tx = e.begin_transaction();
+            let cond = Condition::Lt("age".to_string(), RV::Int(30));
+            let r = if req["statement"].as_str() == Some("tx_delete") { e.tx_delete(tx, "people", cond) } else { e.tx_update(tx, "people", cond, HashMap::from([("age".to_string(), RV::Int(99))])) };
+            if let Err(err) = r { return Some(json!({"error": err.to_string()})); }
+            let _ = e.commit(tx);
+            let all = e.select("people", Condition::True).unwrap_or_default();
+            let age = |r: &relational_engine::Row| match r.get("age") { Some(RV::Int(v)) => *v, _ => -1 };
+            let mut bad: Vec<String> = vec![];
+            for v in [10i64, 20, 40, 99] {
+                let want = all.iter().filter(|r| age(r) == v).count();
+                let got = e.select("people", Condition::Eq("age".to_string(), RV::Int(v))).map(|r| r.len()).unwrap_or(usize::MAX);
+                if got != want { bad.push(format!("age = {v}: {got} rows through the index, {want} by scan")); }
+                let want_ge = all.iter().filter(|r| age(r) >= v).count();
+                let got_ge = e.select("people", Condition::Ge("age".to_string(), RV::Int(v))).map(|r| r.len()).unwrap_or(usize::MAX);
+                if got_ge != want_ge { bad.push(format!("age >= {v}: {got_ge} rows through the index, {want_ge} by scan")); }
+            }
+            json!({"problems": bad, "violates": !bad.is_empty()})
+        },
         "relational_rollback" => {
             // U1: a table with a hash and an ordered index on x; one transaction performing, on ONE row where possible, the
             // statements whose undo entries the witness lists (so that the order of undo matters); rollback; every row and every
